@@ -5,7 +5,7 @@ from core import World, hx, Line, parse_fs
 from gen import Gen, mode_line, cfg_line
 from suites import run_suite
 
-LEAN_MODULES = ['GoSnaps.Props.C12', 'GoSnaps.Props.Tie.Wrappers', 'GoSnaps.Props.Tie.Flows']
+LEAN_MODULES = ['GoSnaps.Props.C12', 'GoSnaps.Props.Tie.Wrappers', 'GoSnaps.Props.Tie.Flows', 'GoSnaps.Props.Tie.Pipeline']
 KINDS = ['snap', 'json', 'yaml', 'sasnap', 'sajson']
 OPTS = [(None, None), ('custom', None), (None, '.txt'), ('custom', '.yaml')]
 
